@@ -144,21 +144,39 @@ def failing_lemma(log):
     return None
 
 
-def forbidden_scan():
-    """no Admitted/admit/Axiom/... anywhere in the development (comments are stripped first)"""
-    hits = []
-    for d in ('gen', 'model', 'proofs', 'props', 'cases'):
-        dd = os.path.join(COQ, d)
-        if not os.path.isdir(dd):
+def coq_closure(pid):
+    """the .v files props/<pid>.v depends on (transitively), found from their `From <Lib> Require ...` lines"""
+    libs = {'Gen': 'gen', 'Model': 'model', 'Proofs': 'proofs', 'Props': 'props', 'Cases': 'cases'}
+    todo = [os.path.join('props', pid + '.v')]
+    seen = []
+    while todo:
+        f = todo.pop()
+        if f in seen:
             continue
-        for f in sorted(os.listdir(dd)):
-            if not f.endswith('.v'):
-                continue
-            txt = open(os.path.join(dd, f)).read()
-            txt = strip_comments(txt)
-            for i, line in enumerate(txt.split('\n'), 1):
-                if FORBIDDEN.search(line):
-                    hits.append(f'{d}/{f}:{i}: {line.strip()[:100]}')
+        path = os.path.join(COQ, f)
+        if not os.path.exists(path):
+            continue
+        seen.append(f)
+        txt = strip_comments(open(path).read())
+        for m in re.finditer(r'From\s+(\w+)\s+Require\s+(?:Import|Export)?\s*([^.]*)\.', txt):
+            if m.group(1) in libs:
+                for name in m.group(2).split():
+                    todo.append(os.path.join(libs[m.group(1)], name + '.v'))
+    return sorted(seen)
+
+
+def forbidden_scan(pid=None):
+    """no Admitted/admit/Axiom/... anywhere in the files the property's theorems depend on (comments stripped)"""
+    hits = []
+    if pid is not None:
+        files = coq_closure(pid)
+    else:
+        files = [os.path.join(d, f) for d in ('gen', 'model', 'proofs', 'props') for f in sorted(os.listdir(os.path.join(COQ, d))) if f.endswith('.v')]
+    for rel in files:
+        txt = strip_comments(open(os.path.join(COQ, rel)).read())
+        for i, line in enumerate(txt.split('\n'), 1):
+            if FORBIDDEN.search(line):
+                hits.append(f'{rel}:{i}: {line.strip()[:100]}')
     return hits
 
 
@@ -415,7 +433,8 @@ def standard_proof_steps(ck, translators=None, extra_targets=()):
         ck.extra['failed_lemma'] = lemma
         ck.extra['failed_at'] = where
         return False
-    hits = forbidden_scan()
+    hits = forbidden_scan(pid)
+    ck.extra['coq_files'] = coq_closure(pid)
     ck.oblige('no Admitted/admit/Axiom/Parameter/Conjecture/disabled checks in the development', not hits, 'audit',
               '\n'.join(hits))
     if hits:
